@@ -14,9 +14,20 @@ RULE = (
     'event was enqueued on have finished. Non-trivial = some event was forwarded to a bus whose handler had not finished '
     'when the handlers of the first bus had; distinct by canonical JSON.'
 )
-ASSUMPTIONS = ['virtual time', 'no re-dispatch by user code, no timeouts']
+ASSUMPTIONS = ['virtual time', 'no re-dispatch by user code; a quarter of the scenarios carry event timeouts (a parent timing out later must not touch an already completed child)']
 
-P = Profile(min_buses=2, max_buses=3, fwd=1.0, typed_fwd=True, watch=True, actor_ops=['disp', 'disp', 'dispany', 'sleep', 'await', 'await', 'status', 'yield'], maxdepth=[1, 2], wild=0.4, par=0.15, raises=0.1, durs=[0.01, 0.05, 0.1, 0.11, 0.25, 0.5])
+from hypothesis import strategies as _st
+
+
+@_st.composite
+def _timeouts(draw):
+    # most scenarios have no timeouts; some let a parent time out after a child has already completed
+    if draw(_st.integers(0, 3)) != 0:
+        return {}
+    return {str(t): draw(_st.sampled_from([0.13, 0.27, 0.41, 0.77])) for t in range(4) if draw(_st.booleans())}
+
+
+P = Profile(timeouts=_timeouts(), min_buses=2, max_buses=3, fwd=1.0, typed_fwd=True, watch=True, actor_ops=['disp', 'disp', 'dispany', 'sleep', 'await', 'await', 'status', 'yield'], maxdepth=[1, 2], wild=0.4, par=0.15, raises=0.1, durs=[0.01, 0.05, 0.1, 0.11, 0.25, 0.5])
 
 
 def budget(tier):
